@@ -217,6 +217,7 @@ Proof.
   - inversion H; subst. exists ch. split; auto. apply chan_rel_refl; auto.
   - destruct (forallb (fun sc => negb (case_ready chs sc)) cs); inversion H; subst.
     exists ch. split; auto. apply chan_rel_refl; auto.
+  - inversion H; subst. exists ch. split; auto. apply chan_rel_refl; auto.
 Qed.
 
 Lemma apply_act_length : forall chs a chs', apply_act chs a = Some chs' -> length chs' = length chs.
@@ -230,6 +231,7 @@ Proof.
   destruct a; simpl in H; try (eapply G; exact H).
   - inversion H; auto.
   - destruct (forallb (fun sc => negb (case_ready chs sc)) cs); inversion H; auto.
+  - inversion H; auto.
 Qed.
 
 (* ---------- exec only changes the channels through apply_act ---------- *)
@@ -251,7 +253,7 @@ Proof.
   - destruct (apply_act (chs s) a) as [chs1|] eqn:E; try discriminate.
     assert (forall t0, lin1 (mkSt chs1 (pend s) (fin s)) t0 a i = Some s' -> Some chs1 = Some (chs s')).
     { intros t0 H0. apply lin1_chs in H0. simpl in H0. congruence. }
-    destruct a as [| |ts tr c v| | | | | |]; try (eapply H0; exact H).
+    destruct a as [| |ts tr c v| | | | | | |]; try (eapply H0; exact H).
     destruct (lin1 (mkSt chs1 (pend s) (fin s)) ts (ARdv ts tr c v) i) as [s1|] eqn:E1; try discriminate.
     apply lin1_chs in E1. apply lin1_chs in H. simpl in E1. congruence.
   - destruct (find_t t (fin s)) as [[o' r']|]; try discriminate.
@@ -354,6 +356,47 @@ Proof.
     rewrite <- filter_app, firstn_skipn. auto.
 Qed.
 
+(* ---------- a safe operation either fails for lack of room (ALimit) or goes through the channels ---------- *)
+Lemma completes_plain_limit : forall t o u, completes_plain t o (ALimit u) = None.
+Proof. intros t o u. destruct o; reflexivity. Qed.
+
+Lemma completes_safe_limit : forall t o u i, completes_safe t o (ALimit u) i = None.
+Proof.
+  intros t o u i. destruct o; try reflexivity. simpl.
+  destruct (nth_error cs i) as [[c w|c|]|]; auto.
+Qed.
+
+Lemma completes_plain_not_limit : forall t o a, completes_plain t o a <> Some RErrLimit.
+Proof.
+  intros t o a H. destruct o, a; simpl in H; try discriminate;
+    match type of H with (if ?X then _ else _) = _ => destruct X; discriminate end.
+Qed.
+
+Lemma completes_safe_not_limit : forall t o a i, completes_safe t o a i <> Some RErrLimit.
+Proof.
+  intros t o a i H. destruct o; try (eapply completes_plain_not_limit; exact H). unfold completes_safe in H.
+  destruct (nth_error cs i) as [[c w|c|]|]; try discriminate.
+  - destruct (completes_plain t (OSend c w) a) as [[]|]; discriminate.
+  - destruct (completes_plain t (ORecv c) a) as [[]|]; discriminate.
+  - destruct a; try discriminate. destruct ((t =? t0) && list_eqb scase_eqb cs cs0); discriminate.
+Qed.
+
+Lemma completes_inv : forall t o a i r, op_unsafe o = false -> completes t o a i = Some r ->
+  (a = ALimit t /\ r = RErrLimit /\ op_reserves o = true) \/
+  ((forall u, a <> ALimit u) /\ completes_safe t o a i = Some r).
+Proof.
+  intros t o a i r Hu H. unfold completes in H. rewrite Hu in H.
+  destruct a; try (right; split; [intros u; discriminate|exact H]).
+  left. destruct (t =? t0) eqn:E; simpl in H; try discriminate.
+  apply Z.eqb_eq in E. subst t0. destruct (op_reserves o); inversion H; auto.
+Qed.
+
+Lemma completes_safe_of : forall t o a i r, op_unsafe o = false -> completes t o a i = Some r ->
+  r <> RErrLimit -> completes_safe t o a i = Some r.
+Proof.
+  intros t o a i r Hu H N. destruct (completes_inv _ _ _ _ _ Hu H) as [[_ [-> _]]|[_ G]]; auto. congruence.
+Qed.
+
 (* ---------- closure ---------- *)
 Definition closed_drained (chs : list chan) (c : cid) : Prop :=
   exists ch, nth_error chs c = Some ch /\ closed ch = true /\ buf ch = [].
@@ -373,6 +416,7 @@ Proof.
   intros chs a chs' H Hc. destruct a; simpl in Hc; try discriminate; simpl in H.
   - inversion H; auto.
   - destruct (forallb (fun sc => negb (case_ready chs sc)) cs); inversion H; auto.
+  - inversion H; auto.
 Qed.
 
 Lemma closed_drained_act : forall a ch ch', closed ch = true -> buf ch = [] -> chan_act a ch = Some ch' -> ch' = ch.
@@ -424,9 +468,11 @@ Definition closed_drained_stmt : Prop :=
        exists s', exec s (LLin (ARecvClosed t c) 0 0) = Some s' /\
                   find_t t (fin s') = Some (ORecv c, RRecv false VNil)) /\
     (* whatever step completes a receive on c, plain or as a select case, reports closure *)
-    (forall t a i r chs', apply_act (chs s) a = Some chs' -> completes t (ORecv c) a i = Some r -> r = RRecv false VNil) /\
+    (* (or it fails, catchably, because the calling state has no room for the two results) *)
+    (forall t a i r chs', apply_act (chs s) a = Some chs' -> completes t (ORecv c) a i = Some r ->
+       r = RRecv false VNil \/ (r = RErrLimit /\ a = ALimit t)) /\
     (forall t cs a i r chs', apply_act (chs s) a = Some chs' -> nth_error cs i = Some (SRecv c) ->
-       completes t (OSelect cs) a i = Some r -> r = RSel i VNil false \/ r = RErrRefused) /\
+       completes t (OSelect cs) a i = Some r -> r = RSel i VNil false \/ r = RErrRefused \/ (r = RErrLimit /\ a = ALimit t)) /\
     (* and the channel stays closed and drained in every continuation *)
     (forall ls s', run s ls = Some s' -> closed_drained (chs s') c).
 
@@ -437,12 +483,16 @@ Proof.
     unfold exec, apply_act. simpl. rewrite Hn. simpl. rewrite Hc, Hb. simpl.
     unfold lin1. simpl. rewrite Hp, Hf. unfold completes. simpl. rewrite Z.eqb_refl, Nat.eqb_refl. simpl.
     eexists. split; [reflexivity|]. simpl. rewrite Z.eqb_refl. auto.
-  - intros t a i r chs' H Hr. unfold completes in Hr. simpl in Hr. eapply completes_plain_recv_closed; eauto.
-  - intros t cs a i r chs' H Hi Hr. unfold completes in Hr.
-    destruct (op_unsafe (OSelect cs)).
-    + destruct a; try discriminate. destruct (t =? t0); inversion Hr; auto.
-    + rewrite Hi in Hr. destruct (completes_plain t (ORecv c) a) as [r0|] eqn:E; try discriminate.
-      pose proof (completes_plain_recv_closed _ _ _ _ _ _ Hcd H E). subst r0. inversion Hr; auto.
+  - intros t a i r chs' H Hr.
+    destruct (completes_inv t (ORecv c) a i r eq_refl Hr) as [[-> [-> _]]|[_ G]]; auto.
+    left. simpl in G. eapply completes_plain_recv_closed; eauto.
+  - intros t cs a i r chs' H Hi Hr.
+    destruct (op_unsafe (OSelect cs)) eqn:Eu.
+    + unfold completes in Hr. rewrite Eu in Hr.
+      destruct a; try discriminate. destruct (t =? t0); inversion Hr; auto.
+    + destruct (completes_inv _ _ _ _ _ Eu Hr) as [[-> [-> _]]|[_ G]]; auto.
+      unfold completes_safe in G. rewrite Hi in G. destruct (completes_plain t (ORecv c) a) as [r0|] eqn:E; try discriminate.
+      pose proof (completes_plain_recv_closed _ _ _ _ _ _ Hcd H E). subst r0. inversion G; auto.
   - intros ls s' H. eapply closed_drained_run; eauto.
 Qed.
 
@@ -474,9 +524,10 @@ Qed.
 
 Lemma select_only_ready_lemma : select_only_ready_stmt.
 Proof.
-  intros chs a chs' t cs i v ok H Hr. unfold completes in Hr.
-  destruct (op_unsafe (OSelect cs)).
-  { destruct a; try discriminate. destruct (t =? t0); discriminate. }
+  intros chs a chs' t cs i v ok H Hr.
+  destruct (op_unsafe (OSelect cs)) eqn:Eu.
+  { unfold completes in Hr. rewrite Eu in Hr. destruct a; try discriminate. destruct (t =? t0); discriminate. }
+  apply completes_safe_of in Hr; auto; try discriminate. unfold completes_safe in Hr.
   destruct (nth_error cs i) as [[c w|c|]|] eqn:Ei; try discriminate.
   - (* send case *)
     destruct (completes_plain t (OSend c w) a) as [r0|] eqn:E; try discriminate.
@@ -503,7 +554,7 @@ Proof.
     + destruct ((t =? t0) && Nat.eqb c c0 && value_eqb w v); discriminate.
   - (* receive case *)
     destruct (completes_plain t (ORecv c) a) as [r0|] eqn:E; try discriminate.
-    destruct r0 as [|ok0 v0| | | | | |]; try discriminate. inversion Hr; subst v0 ok0. clear Hr.
+    destruct r0 as [|ok0 v0| | | | | | |]; try discriminate. inversion Hr; subst v0 ok0. clear Hr.
     destruct a; simpl in E; try discriminate.
     + destruct ((t =? t0) && Nat.eqb c c0) eqn:E1; try discriminate. inversion E; subst v0 ok. clear E.
       apply andb_prop in E1. destruct E1 as [E1 E2]. apply Nat.eqb_eq in E2. subst c0.
@@ -568,7 +619,7 @@ Proof.
   - unfold completes in H0. rewrite H in H0. destruct a; try discriminate. simpl in H1. inversion H1; auto.
   - intros s t o Hp Hf Hu. unfold exec. simpl. unfold lin1. simpl. rewrite Hp, Hf. unfold completes. rewrite Hu, Z.eqb_refl.
     eexists. split; [reflexivity|]. simpl. rewrite Z.eqb_refl. auto.
-  - intros t o a i Hu H. unfold completes in H. rewrite Hu in H.
+  - intros t o a i Hu H. apply completes_safe_of in H; auto; try discriminate. unfold completes_safe in H.
     destruct o; try (eapply completes_plain_not_refused; eauto; fail).
     destruct (nth_error cs i) as [[c w|c|]|]; try discriminate.
     + destruct (completes_plain t (OSend c w) a) as [[]|]; discriminate.
@@ -686,10 +737,13 @@ Qed.
 Lemma completes_role : forall sd c t o a i r,
   completes t o a i = Some r -> rdv_ok a -> opt_list (succ_x sd c o r) = role_x sd c t a.
 Proof.
-  intros sd c t o a i r H Hok. unfold completes in H.
+  intros sd c t o a i r H Hok.
   destruct (op_unsafe o) eqn:Eu.
-  { destruct a; try discriminate. destruct (t =? t0); inversion H; subst.
+  { unfold completes in H. rewrite Eu in H. destruct a; try discriminate. destruct (t =? t0); inversion H; subst.
     destruct sd, o; reflexivity. }
+  destruct (completes_inv _ _ _ _ _ Eu H) as [[-> [-> _]]|[_ G0]].
+  { destruct sd, o; reflexivity. }
+  clear H. rename G0 into H. unfold completes_safe in H.
   destruct o as [c0 v0|c0|c0|cs];
     try (exact (completes_plain_role sd c t _ a r H Hok)).
   destruct (nth_error cs i) as [[c0 w|c0|]|] eqn:Ei; try discriminate.
@@ -794,7 +848,7 @@ Proof.
       - constructor; auto. apply find_none_notin; auto.
       - rewrite count_app. rewrite (completes_role sd c _ _ _ _ _ G3 Hok).
         rewrite (act_x_role sd c a Hok). subst u. destruct a; try contradiction; lia. }
-    simpl. destruct a as [| |ts tr c0 v0| | | | | |]; try (apply (G _ eq_refl I H)).
+    simpl. destruct a as [| |ts tr c0 v0| | | | | | |]; try (apply (G _ eq_refl I H)).
     destruct (lin1 (mkSt chs1 (pend s) (fin s)) ts (ARdv ts tr c0 v0) i) as [s1|] eqn:E1; try discriminate.
     destruct (lin1_fin _ _ _ _ _ E1) as [o1 [r1 [A1 [A2 [A3 [A4 _]]]]]].
     destruct (lin1_fin _ _ _ _ _ H) as [o2 [r2 [B1 [B2 [B3 [B4 _]]]]]]. simpl in *.
@@ -877,7 +931,7 @@ Proof.
         symmetry. apply (completes_role sd c u o a i r G3 Hok).
       - rewrite fin_by_cons_other by auto. rewrite role_x_other; [apply app_nil_r| |congruence].
         destruct a; auto; contradiction. }
-    simpl. destruct a as [| |ts tr c0 v0| | | | | |]; try (apply (G _ eq_refl I H)).
+    simpl. destruct a as [| |ts tr c0 v0| | | | | | |]; try (apply (G _ eq_refl I H)).
     destruct (lin1 (mkSt chs1 (pend s) (fin s)) ts (ARdv ts tr c0 v0) i) as [s1|] eqn:E1; try discriminate.
     destruct (lin1_fin _ _ _ _ _ E1) as [o1 [r1 [A1 [A2 [A3 [A4 _]]]]]].
     destruct (lin1_fin _ _ _ _ _ H) as [o2 [r2 [B1 [B2 [B3 [B4 _]]]]]]. simpl in A2, A4.
@@ -1086,7 +1140,7 @@ Proof.
         apply K1. congruence.
       - rewrite find_remove_other by auto. simpl. rewrite neq_eqb_false by auto. auto. }
     assert (J0 : status_inv u (mkSt chs1 (pend s) (fin s)) b) by (split; auto).
-    destruct a as [| |ts tr c0 v0| | | | | |]; try (eapply G; eauto; fail).
+    destruct a as [| |ts tr c0 v0| | | | | | |]; try (eapply G; eauto; fail).
     destruct (lin1 (mkSt chs1 (pend s) (fin s)) ts (ARdv ts tr c0 v0) i) as [s1|] eqn:E1; try discriminate.
     eapply G; eauto.
   - destruct (find_t t (fin s)) as [[o' r']|] eqn:Ef; try discriminate.
@@ -1167,4 +1221,51 @@ Proof.
       + unfold recvd_on. rewrite flat_map_app, vals_app. apply subseq_two_app; auto.
     - rewrite <- S, thread_x_filter, on_x_sent. apply subseq_map_filter. }
   simpl in P. rewrite (proj2 (mem_in _ _) Hs1), (proj2 (mem_in _ _) Hs2) in P. exact P.
+Qed.
+
+(* ---------- an operation that fails for lack of room has not touched any channel ---------- *)
+Definition limit_failure_stmt : Prop :=
+  (* the failure is a step of the failing thread alone; every channel (buffer, closed flag) and every
+     other thread's operation is left exactly as it was *)
+  (forall s t i j s', exec s (LLin (ALimit t) i j) = Some s' ->
+     chs s' = chs s /\
+     exists o, find_t t (pend s) = Some o /\ op_reserves o = true /\ op_unsafe o = false /\
+               fin s' = (t, (o, RErrLimit)) :: fin s /\ pend s' = remove_t t (pend s)) /\
+  (* it is the only way an operation ends RErrLimit; send and close never do *)
+  (forall t o a i, completes t o a i = Some RErrLimit -> a = ALimit t /\ op_reserves o = true /\ op_unsafe o = false) /\
+  (* it never blocks *)
+  (forall s t o, find_t t (pend s) = Some o -> find_t t (fin s) = None -> op_reserves o = true -> op_unsafe o = false ->
+     exists s', exec s (LLin (ALimit t) 0 0) = Some s' /\ find_t t (fin s') = Some (o, RErrLimit)) /\
+  (* the value the failed receive could have taken is still the next one delivered: any pending
+     receive on that channel (the retry of the same thread included) can take the same head *)
+  (forall s t i j s' c ch x b u, exec s (LLin (ALimit t) i j) = Some s' ->
+     nth_error (chs s) c = Some ch -> buf ch = x :: b ->
+     find_t u (pend s') = Some (ORecv c) -> find_t u (fin s') = None ->
+     exists s'', exec s' (LLin (ARecv u c x) 0 0) = Some s'' /\
+                 find_t u (fin s'') = Some (ORecv c, RRecv true x)).
+
+Lemma value_eqb_refl' : forall v, value_eqb v v = true.
+Proof. exact value_eqb_refl. Qed.
+
+Lemma limit_failure_lemma : limit_failure_stmt.
+Proof.
+  split; [|split; [|split]].
+  - intros s t i j s' H. unfold exec in H. simpl in H.
+    destruct (lin1_fin _ _ _ _ _ H) as [o [r [G1 [G2 [G3 [G4 G5]]]]]]. simpl in *.
+    split. { apply lin1_chs in H. simpl in H. auto. }
+    exists o. unfold completes in G3. destruct (op_unsafe o) eqn:Eu; try discriminate.
+    rewrite Z.eqb_refl in G3. simpl in G3. destruct (op_reserves o) eqn:Er; inversion G3; subst. auto.
+  - intros t o a i H. destruct (op_unsafe o) eqn:Eu.
+    + unfold completes in H. rewrite Eu in H. destruct a; try discriminate. destruct (t =? t0); discriminate.
+    + destruct (completes_inv _ _ _ _ _ Eu H) as [[-> [_ Hr]]|[_ G]]; auto.
+      exfalso. eapply completes_safe_not_limit; eauto.
+  - intros s t o Hp Hf Hr Hu. unfold exec. simpl. unfold lin1. simpl. rewrite Hp, Hf.
+    unfold completes. rewrite Hu, Z.eqb_refl, Hr. simpl.
+    eexists. split; [reflexivity|]. simpl. rewrite Z.eqb_refl. auto.
+  - intros s t i j s' c ch x b u H Hn Hb Hp Hf.
+    assert (Hc : chs s' = chs s).
+    { unfold exec in H. simpl in H. apply lin1_chs in H. simpl in H. auto. }
+    unfold exec, apply_act. simpl. rewrite Hc, Hn. simpl. rewrite Hb, value_eqb_refl'.
+    unfold lin1. simpl. rewrite Hp, Hf. unfold completes. simpl. rewrite Z.eqb_refl, Nat.eqb_refl. simpl.
+    eexists. split; [reflexivity|]. simpl. rewrite Z.eqb_refl. auto.
 Qed.
